@@ -90,6 +90,21 @@ func registerBigModels() {
 		z := lit(c, "0")
 		return Val{Typ: rt, Terms: []*smt.Term{c.Ite(c.Eq(v, z), c.BVLit64(0, 64), c.Ite(c.Op("bvslt", smt.Bool, v, z), c.BVLit64(-1, 64), c.BVLit64(1, 64)))}}
 	}
+	callModels["(*math/big.Int).Bytes"] = func(e *Engine, f *frame, st *State, args []Val, rt types.Type, pos string) Val {
+		c := e.C
+		e.nilCheck(st, args[0], pos, "nil *big.Int")
+		v := e.bigVal(st, args[0].Terms[0])
+		// the big-endian magnitude: a byte string determined by |v| (no sign information)
+		neg := c.Op("bvslt", smt.Bool, v, c.BVLit64(0, bigW))
+		abs := c.Ite(neg, c.Op("bvneg", smt.BV(bigW), v), v)
+		ref := e.newRef(st)
+		name := elemName(types.Typ[types.Uint8], 0)
+		arr := e.heapArr(st, name, smt.Array(smt.Int, bytesInner))
+		st.Heap[name] = c.Store(arr, ref, c.App("big.magbytes", bytesInner, abs))
+		ln := c.App("big.maglen", smt.BV(64), abs)
+		e.assume(st, c.And(bvle(c, c.BVLit64(0, 64), ln), bvle(c, ln, c.BVLit64(32, 64)), c.Eq(c.Eq(ln, c.BVLit64(0, 64)), c.Eq(abs, c.BVLit64(0, bigW)))))
+		return Val{Typ: rt, Terms: []*smt.Term{ref, c.BVLit64(0, 64), ln, ln}}
+	}
 	callModels["(*math/big.Int).String"] = func(e *Engine, f *frame, st *State, args []Val, rt types.Type, pos string) Val {
 		v := e.fresh("bigstr", rt)
 		e.assume(st, e.validVal(st, v))
